@@ -870,3 +870,81 @@ fn fit_facts_scaled<T: Sc>(rs: &RunSpec<T>, w: &[T], stats: bool) -> Option<FitF
         })
     }
 }
+
+// ------------------------------------------------------------------------------------------
+// optimizer driven histories observed through a proxy LeastSquaresProblem (C02, C10)
+// ------------------------------------------------------------------------------------------
+pub fn run_proxy(count: usize) -> Report {
+    let mut rep = Report::new();
+    let seed = seed_from_env();
+    let mut rng = StdRng::seed_from_u64(seed.wrapping_mul(6151));
+    for i in 0..count {
+        proxy_one::<f64>(i, &mut rng, &mut rep);
+        if i % 4 == 0 {
+            proxy_one::<f32>(i, &mut rng, &mut rep);
+        }
+    }
+    rep
+}
+
+fn proxy_one<T: Sc>(i: usize, rng: &mut StdRng, rep: &mut Report) {
+    let rs = if i % 3 == 2 { exp_run::<T>(i, false, rng) } else { poly_run::<T>(i, rng) };
+    let Ok(prob) = make_problem(&rs, &rs.start, None) else {
+        rep.tool_error(format!("proxy: cannot build {}", rs.label));
+        return;
+    };
+    let mut events: Vec<ProxyEvent<T>> = Vec::new();
+    let pool = rayon::ThreadPoolBuilder::new().num_threads(rs.threads.max(1)).build().unwrap();
+    let (end, term, _nfev, _obj) = pool.install(|| {
+        let mut obs = |e: ProxyEvent<T>| events.push(e);
+        prob.minimize_observed(&rs.cfg, &mut obs)
+    });
+    rep.count("proxy_runs", 1);
+    rep.count(&format!("proxy_term_{}", term), 1);
+    let mut last_set: Option<Vec<T>> = None;
+    for (k, e) in events.iter().enumerate() {
+        match e {
+            ProxyEvent::SetParams(p) => last_set = Some(p.clone()),
+            ProxyEvent::Residuals(r, params) => {
+                let det = |what: &str| json!({"label": rs.label, "event": k, "what": what, "scalar": T::NAME});
+                // the parameters in effect are the ones last applied
+                if let Some(ls) = &last_set {
+                    rep.check("C02", bits_eq(ls, params), 0.0, || det("params() differ from the parameters last applied"));
+                }
+                // whatever is handed to the optimizer is what a fresh problem yields at these parameters
+                let fresh = catch_unwind(AssertUnwindSafe(|| make_problem(&rs, params, None).ok().and_then(|p| p.residuals()))).unwrap_or(None);
+                let good = match (r, &fresh) {
+                    (Some(a), Some(b)) => close(a, b),
+                    (None, None) => true,
+                    _ => false,
+                };
+                rep.check("C02", good, 0.0, || det("residuals handed to the optimizer are not those of the parameters in effect"));
+                rep.check("C10", good, 0.0, || det("state after an optimizer driven history differs from a fresh problem"));
+            }
+            ProxyEvent::Jacobian(j, params) => {
+                let fresh = catch_unwind(AssertUnwindSafe(|| make_problem(&rs, params, None).ok().and_then(|p| p.jacobian()))).unwrap_or(None);
+                let good = match (j, &fresh) {
+                    (Some(a), Some(b)) => close(a.as_slice(), b.as_slice()),
+                    (None, None) => true,
+                    _ => false,
+                };
+                rep.check("C10", good, 0.0, || json!({"label": rs.label, "event": k, "what": "jacobian handed to the optimizer differs from a fresh problem's", "scalar": T::NAME}));
+            }
+        }
+    }
+    // final state coherent
+    let fin = end.finish();
+    if let (Some(c), Some(r)) = (&fin.coeffs, &fin.residuals) {
+        let fresh = make_problem(&rs, &fin.params, None).ok();
+        if let Some(f) = fresh {
+            if let (Some(fc), Some(fr)) = (f.coeffs(), f.residuals()) {
+                rep.check("C02", close(c.as_slice(), fc.as_slice()) && close(r, &fr), 0.0, || {
+                    json!({"label": rs.label, "what": "final coefficients/residuals are not those of the final parameters", "scalar": T::NAME})
+                });
+            }
+        }
+    }
+    if i % 41 == 0 {
+        rep.sample(json!({"label": rs.label, "events": events.len(), "termination": term}));
+    }
+}
